@@ -55,6 +55,9 @@ func c01(args []string) error {
 		if r.Intn(8) == 0 {
 			L = 1
 		}
+		if r.Intn(14) == 0 {
+			L = 0 // rows without any column: the length is 0, not "unset"
+		}
 		ninit := r.Intn(5)
 		// many rows sharing a few base names (auto-renamed on insertion), later renamed back to duplicates
 		big := isAlign && r.Intn(10) == 0
@@ -104,6 +107,11 @@ func c01(args []string) error {
 				kind = 100
 			} else if big && sidx == 1 {
 				kind = 10
+			} else if big && sidx == 2 {
+				kind = 101
+			}
+			if !big && sidx > 0 && r.Intn(12) == 0 {
+				kind = 101 // renames of names that several rows may share by now
 			}
 			curL := L
 			if isAlign && al.Length() >= 0 {
@@ -195,6 +203,18 @@ func c01(args []string) error {
 					}
 					m[nm] = v
 					it = append(it, fmt.Sprintf("(%s, %s)", coqStr(nm), coqStr(v)))
+				}
+				opterm = "BRename " + coqList(it)
+				f = func() error { sb.Rename(m); return nil }
+			case 101: // the shared names are renamed again: every row carrying the name must follow
+				m := map[string]string{}
+				it := []string{}
+				for _, k := range []string{"a", "b", "s1", "ab"} {
+					if r.Intn(3) > 0 {
+						v := []string{"ba", "xa", "a_x", "S1", "b"}[r.Intn(5)]
+						m[k] = v
+						it = append(it, fmt.Sprintf("(%s, %s)", coqStr(k), coqStr(v)))
+					}
 				}
 				opterm = "BRename " + coqList(it)
 				f = func() error { sb.Rename(m); return nil }
